@@ -154,14 +154,53 @@ def _abstract_checks(ctx, env_name, entry):
         ctx.count("abstract_entries")
 
 
+def _extreme_instances(ctx, b, seed, n_keys=1024, top=3):
+    """Targeted search for instances on which a bounded observation leaf gets closest to its declared bound.  Used
+    where the reference model exposes a cheap score of a reset state (MultiCVRP: `shuttle_local_time`, the local
+    time a single shuttling vehicle reaches): a vmapped reset over `n_keys` keys is ranked by that score and the
+    top instances are played with the corresponding solver variant under the ordinary C01 monitor."""
+    import jax
+
+    from vf.models import base
+
+    m = base.get_model(b)
+    if m is None or not hasattr(m, "shuttle_local_time"):
+        return
+    keys = jax.random.split(envs.make_key((seed % 100003, 4242)), n_keys)
+    if not hasattr(b, "_reset_batch"):
+        b._reset_batch = jax.jit(jax.vmap(b.env.reset))
+    sb, _ = episodes.host(b._reset_batch(keys))
+    kh = np.asarray(keys)
+    scores = [m.shuttle_local_time(jax.tree_util.tree_map(lambda x: x[i], sb)) for i in range(n_keys)]
+    for i in np.argsort(scores)[::-1][:top]:
+        kw = (int(kh[i][0]), int(kh[i][1]))
+        rec = episodes.Recorder(ctx, b, kw)
+        mon = Mon(b, ctx, None)
+        plan = {"style": "extreme_shuttle", "steps": [("solve", 3 + 4 * j) for j in range(60)]}
+        with ctx.guard(b.name, rec.case(), size=10**6):
+            episodes.run_plan(b, rec, plan, mon, solve_fn=m.solve_action)
+        ctx.count("extreme_instances_played")
+
+
 def run_item(item, seed, tier):
     if item.get("kind") == "abstract":
         ctx = Ctx(PROPERTY, item)
         for e in item["entries"]:
             _abstract_checks(ctx, item["env"], e)
         return ctx.result()
-    return histprop.run_item(PROPERTY, item, seed, Mon, max_len=60, setup=_static_checks,
-                             per_episode=_per_episode)
+    res = histprop.run_item(PROPERTY, item, seed, Mon, max_len=60, setup=_static_checks,
+                            per_episode=_per_episode)
+    if item["env"] == "MultiCVRP":
+        ctx = Ctx(PROPERTY, item)
+        with ctx.guard(item["env"], {"env": item["env"], "entry": item["entry"], "stage": "extreme"}):
+            _extreme_instances(ctx, envs.bundle(item["env"], item["entry"]), seed)
+        extra = ctx.result()
+        res["evaluations"] += extra["evaluations"]
+        res["digests"] = list(set(res["digests"]) | set(extra["digests"]))
+        res["failures"] += extra["failures"]
+        for k, v in extra["counters"].items():
+            res["counters"][k] = res["counters"].get(k, 0) + v
+    return res
 
 
 def replay(case):
